@@ -13,7 +13,7 @@ use rayon::prelude::*;
 use serde_json::{json, Value};
 use std::collections::{BTreeMap, BTreeSet};
 
-pub const FIELD_IDENTS: [&str; 8] = ["a", "id", "user_id", "user_id2", "x1_y", "http_url", "a__b", "_p"];
+pub const FIELD_IDENTS: [&str; 10] = ["a", "id", "user_id", "user_id2", "x1_y", "http_url", "a__b", "_p", "on_2fa_code", "_2fa"];
 pub const VARIANT_IDENTS: [&str; 6] = ["A", "Done", "InProgress", "HTTPServer", "V2Beta", "Io"];
 
 /// attribute sets for a designated struct field: (label, attribute lines, hidden by plain skip?)
@@ -59,6 +59,9 @@ pub struct ItemSpec {
     pub attr: usize,
     /// identifier the attribute set sits on
     pub designated: usize,
+    /// enum whose variants #1 and #3 carry data (tuple / struct variant): the literal is still the
+    /// variant's wire name
+    pub mixed: bool,
 }
 
 pub fn conventions() -> Vec<Option<&'static str>> {
@@ -106,7 +109,7 @@ pub fn items() -> Vec<ItemSpec> {
             // attribute set under some convention, and every (convention, attribute) pair is present
             for rot in 0..(if [1, 3, 7].contains(&attr) { 2 } else { 1 }) {
                 let designated = (attr + conv + rot * 3) % FIELD_IDENTS.len();
-                v.push(ItemSpec { name: format!("S{}A{}R{}", conv, attr, rot), is_enum: false, conv, attr, designated });
+                v.push(ItemSpec { name: format!("S{}A{}R{}", conv, attr, rot), is_enum: false, conv, attr, designated, mixed: false });
             }
         }
         for attr in 0..VARIANT_ATTRS.len() {
@@ -115,7 +118,13 @@ pub fn items() -> Vec<ItemSpec> {
             }
             for rot in 0..(if attr == 1 { 2 } else { 1 }) {
                 let designated = (attr + conv + rot * 2) % VARIANT_IDENTS.len();
-                v.push(ItemSpec { name: format!("E{}A{}R{}", conv, attr, rot), is_enum: true, conv, attr, designated });
+                v.push(ItemSpec { name: format!("E{}A{}R{}", conv, attr, rot), is_enum: true, conv, attr, designated, mixed: false });
+            }
+        }
+        // data-carrying variants: no attribute, and a rename on the tuple / the struct variant
+        if !conventions()[conv].is_some_and(|c| c.contains(':')) {
+            for (attr, designated) in [(0usize, 0usize), (1, 1), (2, 3)] {
+                v.push(ItemSpec { name: format!("M{}A{}D{}", conv, attr, designated), is_enum: true, conv, attr, designated, mixed: true });
             }
         }
     }
@@ -136,7 +145,11 @@ pub fn item_source(it: &ItemSpec) -> String {
                     s.push_str(&format!("    {}\n", a));
                 }
             }
-            s.push_str(&format!("    {},\n", id));
+            match (it.mixed, i) {
+                (true, 1) => s.push_str(&format!("    {}(i32),\n", id)),
+                (true, 3) => s.push_str(&format!("    {} {{ port: i32 }},\n", id)),
+                _ => s.push_str(&format!("    {},\n", id)),
+            }
         }
     } else {
         s.push_str(&format!("pub struct {} {{\n", it.name));
@@ -164,12 +177,13 @@ pub fn fixtures_source() -> String {
     for it in items() {
         if it.is_enum {
             s.push_str(&format!("    t.push((\"{}\".to_string(), vec![\n", it.name));
-            for id in VARIANT_IDENTS {
-                s.push_str(&format!(
-                    "        (\"{id}\".to_string(), serde_json::to_value(&{n}::{id}).ok().and_then(|v| v.as_str().map(|s| s.to_string()))),\n",
-                    id = id,
-                    n = it.name
-                ));
+            for (i, id) in VARIANT_IDENTS.iter().enumerate() {
+                let value = match (it.mixed, i) {
+                    (true, 1) => format!("{}::{}(1)", it.name, id),
+                    (true, 3) => format!("{}::{} {{ port: 1 }}", it.name, id),
+                    _ => format!("{}::{}", it.name, id),
+                };
+                s.push_str(&format!("        (\"{id}\".to_string(), serde_json::to_value(&{value}).ok().and_then(|v| tag_of(&v))),\n", id = id, value = value));
             }
             s.push_str("    ]));\n");
         } else {
@@ -189,7 +203,7 @@ pub fn fixtures_source() -> String {
             s.push_str("        ]));\n    }\n");
         }
     }
-    s.push_str("    t\n}\n");
+    s.push_str("    t\n}\n\n/// the wire name of an externally tagged variant: the string itself, or the single key\nfn tag_of(v: &serde_json::Value) -> Option<String> {\n    match v {\n        serde_json::Value::String(s) => Some(s.clone()),\n        serde_json::Value::Object(o) if o.len() == 1 => o.keys().next().cloned(),\n        _ => None,\n    }\n}\n");
     s
 }
 
@@ -208,6 +222,7 @@ pub fn serde_table() -> BTreeMap<String, BTreeMap<String, Option<String>>> {
 pub fn expected_names(it: &ItemSpec, table: &BTreeMap<String, BTreeMap<String, Option<String>>>) -> BTreeMap<String, String> {
     let own = &table[&it.name];
     let sibling_name = format!("{}{}A0R0", if it.is_enum { "E" } else { "S" }, it.conv);
+    let sibling_name = if table.contains_key(&sibling_name) { sibling_name } else { it.name.clone() };
     let sibling = &table[&sibling_name];
     let idents: Vec<&str> = if it.is_enum { VARIANT_IDENTS.to_vec() } else { FIELD_IDENTS.to_vec() };
     let mut m = BTreeMap::new();
@@ -312,7 +327,8 @@ pub fn replay(case: &Value) -> Vec<Violation> {
     let zod = case["zod"].as_bool().unwrap_or(false);
     let Some(it) = items().into_iter().find(|i| i.name == name) else { return vec![] };
     let table = serde_table();
-    let run = run_lib_default(&project_for(std::slice::from_ref(&it)), &Cfg::mode(zod));
+    let cfg = Cfg { default_field_case: case["default_field_case"].as_str().map(|s| s.to_string()), ..Cfg::mode(zod) };
+    let run = run_lib_default(&project_for(std::slice::from_ref(&it)), &cfg);
     if !run.ok() {
         return vec![];
     }
@@ -335,22 +351,29 @@ pub fn run(tier: Tier) -> CheckResult {
     for it in &all {
         groups.entry((it.conv, it.is_enum)).or_default().push(it.clone());
     }
-    let work: Vec<((usize, bool), bool)> = groups.keys().flat_map(|k| [(*k, false), (*k, true)]).collect();
+    // enum groups also run under a configured default_field_case: variants are not fields
+    let mut work: Vec<((usize, bool), bool, Option<&'static str>)> = groups.keys().flat_map(|k| [(*k, false, None), (*k, true, None)]).collect();
+    for k in groups.keys().filter(|k| k.1) {
+        for fc in ["camelCase", "snake_case", "SCREAMING_SNAKE_CASE"] {
+            work.push((*k, k.0 % 2 == 0, Some(fc)));
+        }
+    }
     let results: Vec<(u64, Vec<Violation>, Vec<String>, u64)> = work
         .par_iter()
-        .map(|(k, zod)| {
+        .map(|(k, zod, field_case)| {
+            let cfg_of = |zod: bool| Cfg { default_field_case: field_case.map(|s| s.to_string()), ..Cfg::mode(zod) };
             let its = &groups[k];
             let mut evals = 1u64;
             let mut vs = vec![];
             let mut mach = vec![];
             let mut judged = 0u64;
-            let run = run_lib_default(&project_for(its), &Cfg::mode(*zod));
+            let run = run_lib_default(&project_for(its), &cfg_of(*zod));
             let batch_ok = run.ok() && ts::parse_module(run.file("types.ts").unwrap_or("")).is_ok();
             for it in its {
                 let r = if batch_ok {
                     judge(it, *zod, &run.files, &table)
                 } else {
-                    let solo = run_lib_default(&project_for(std::slice::from_ref(it)), &Cfg::mode(*zod));
+                    let solo = run_lib_default(&project_for(std::slice::from_ref(it)), &cfg_of(*zod));
                     evals += 1;
                     if !solo.ok() {
                         Err(format!("run failed: {}", solo.status_string()))
@@ -363,10 +386,13 @@ pub fn run(tier: Tier) -> CheckResult {
                         judged += 1;
                         // re-confirm solo before reporting
                         if !v.is_empty() && batch_ok {
-                            let solo = run_lib_default(&project_for(std::slice::from_ref(it)), &Cfg::mode(*zod));
+                            let solo = run_lib_default(&project_for(std::slice::from_ref(it)), &cfg_of(*zod));
                             evals += 1;
                             match judge(it, *zod, &solo.files, &table) {
-                                Ok(v2) if !v2.is_empty() => vs.extend(v2),
+                                Ok(v2) if !v2.is_empty() => vs.extend(v2.into_iter().map(|v| match field_case {
+                                    Some(fc) => v.field("default_field_case", *fc).with_replay_field("default_field_case", json!(fc)),
+                                    None => v,
+                                })),
                                 _ => mach.push(format!("batch/solo disagreement for {}", it.name)),
                             }
                         } else {
@@ -405,7 +431,7 @@ pub fn run(tier: Tier) -> CheckResult {
     res.coverage.set("exhaustive", true);
     res.coverage.set("serde_oracle_items", table.len() as u64);
     res.coverage.set("samples", json!([item_source(&all[5]), item_source(&all[all.len() - 3])]));
-    res.coverage.set("rule", "items: for each of the 15 container settings (none + 8 rename_all conventions + rename_all(serialize, deserialize) in both orders + rename_all_fields alone and beside rename_all [enums] + rename_all split over two attributes with deny_unknown_fields / a container rename whose value is \"rename_all\") structs with 8 field identifiers and enums with 6 variant identifiers, one designated member carrying each of 19 (fields) / 8 (variants) attribute sets (rename values, rename(serialize, deserialize) in both orders and serialize-only, skip, skip_serializing_if, default, alias=\"skip\", rename=\"rename_all\", combined and separate attributes in both orders, skip_serializing, skip_deserializing); oracle for names = REAL serde: the same source text is compiled with serde_derive in the ttv-fixtures crate, serialised and read back; oracle for presence = the property's rule (absent iff plain skip); compared with the keys / literals parsed from the generated declaration in both modes. distinct_nontrivial = distinct (convention, kind, identifier, attribute set, mode) coordinates covered.");
+    res.coverage.set("rule", "items: for each of the 15 container settings (none + 8 rename_all conventions + rename_all(serialize, deserialize) in both orders + rename_all_fields alone and beside rename_all [enums] + rename_all split over two attributes with deny_unknown_fields / a container rename whose value is \"rename_all\") structs with 10 field identifiers (incl. words that start with a digit) and enums with 6 variant identifiers (unit variants; plus enums with a tuple and a struct variant, whose literal is still the wire name; enum groups also under a configured default_field_case), one designated member carrying each of 19 (fields) / 8 (variants) attribute sets (rename values, rename(serialize, deserialize) in both orders and serialize-only, skip, skip_serializing_if, default, alias=\"skip\", rename=\"rename_all\", combined and separate attributes in both orders, skip_serializing, skip_deserializing); oracle for names = REAL serde: the same source text is compiled with serde_derive in the ttv-fixtures crate, serialised and read back; oracle for presence = the property's rule (absent iff plain skip); compared with the keys / literals parsed from the generated declaration in both modes. distinct_nontrivial = distinct (convention, kind, identifier, attribute set, mode) coordinates covered.");
     res.assumptions = vec!["skip on enum variants is not in the alphabet (the statement defines absence for fields only)".into()];
     res
 }
